@@ -58,6 +58,7 @@ type Program struct {
 	CHA      *callgraph.Graph
 
 	ZapFuncs  []*ssa.Function // all functions (incl. anonymous) of package zap, sorted by name
+	owners    []ownerInfo     // file-owner types (owners.go), while a rule that needs them runs
 	NumFiles  int
 	NumPkgs   int
 	NumAllFns int
